@@ -1047,11 +1047,16 @@ def add_precondition_to_checker(checker: CallableT, contract: Contract) -> None:
     assert hasattr(checker, "__preconditions__")
     preconditions = getattr(checker, "__preconditions__")
     assert isinstance(preconditions, list)
-    assert len(preconditions) <= 1, (
-        "At most a single group of preconditions expected when wrapping with a contract checker. "
-        "The preconditions are merged only in the DBC metaclass. "
-        "The current number of precondition groups: {}"
-    ).format(len(preconditions))
+    if len(preconditions) > 1:
+        # This is not an ``assert`` statement: the interpreter would drop it in the optimized mode and an explicitly
+        # enabled precondition would then be silently added to the first (inherited) group.
+        raise AssertionError(
+            (
+                "At most a single group of preconditions expected when wrapping with a contract checker. "
+                "The preconditions are merged only in the DBC metaclass. "
+                "The current number of precondition groups: {}"
+            ).format(len(preconditions))
+        )
 
     if len(preconditions) == 0:
         # Create the first group if there is no group so far, i.e. this is the first decorator.
